@@ -267,6 +267,36 @@ def gen_cases(rng, n_draws, ns, names=None):
                     yield case
 
 
+def draw_concentrated_truth(name, rng):
+    """regular members whose samples are concentrated (densities above 1, POSITIVE log-likelihood, i.e. a negative value
+    of the function the optimiser minimises) while the data stay within [0.05, 20]"""
+    u = rng.uniform
+    if name == "Weibull":
+        return {"alpha": 10 ** u(-1.1, -0.5), "beta": u(1.2, 2.5), "gamma": float(rng.choice([0.5, 1.0, 1.5]))}
+    if name == "LogNormal":
+        return {"mu": u(0.0, 1.5), "sigma": u(0.02, 0.08)}
+    if name == "Normal":
+        return {"mu": u(1, 12), "sigma": u(0.02, 0.1)}
+    if name == "ExpWeibull":
+        return {"alpha": 10 ** u(-1.0, -0.6), "beta": u(1.0, 2.5), "delta": u(1.0, 4)}
+    if name == "GenGamma":
+        return {"m": u(1.0, 3), "c": u(1.0, 2.5), "lambda_": u(5.0, 12.0)}
+    # shipped families only: the ScipyDistribution test subclasses hand the whole fit to scipy's generic optimiser, whose
+    # behaviour on concentrated three-parameter gamma data (fitted shape < 1 with free location) is scipy's, not virocon's
+    return None
+
+
+def gen_concentrated_cases(rng, n_draws, ns):
+    for name in KINDS:
+        for _ in range(n_draws):
+            truth = draw_concentrated_truth(name, rng)
+            if truth is None:
+                break
+            truth = {k: float(v) for k, v in truth.items()}
+            yield {"part": "C", "family": name, "truth": truth, "n": int(rng.choice(ns)), "seed": int(rng.integers(0, 2 ** 31)),
+                   "start_kind": "default", "regime": "concentrated", "aux_seed": int(rng.integers(0, 2 ** 31))}
+
+
 def gen_fixed_cases(rng, n_draws, ns):
     """maximum-likelihood fits with a non-empty proper subset of the parameters fixed (at the generating values): the
     remaining parameters are estimated by maximum likelihood, so the likelihood must not fall below that of the start
@@ -570,6 +600,8 @@ def register(ck, case, res):
     ck.case(case, nontrivial=nontrivial, sample=(ck.evaluations % 23 == 0))
     ck.count("C_family=" + name)
     ck.count("C_start=" + case["start_kind"])
+    if case.get("regime"):
+        ck.count("C_regime=" + case["regime"])
     ck.count("C_n=" + str(case["n"]))
     if "error" in res:
         raise RuntimeError("harness error in case " + repr(case) + ": " + res["error"])
@@ -712,6 +744,7 @@ def main(ck):
     ns = [100, 1000, 5000] if thorough else [100, 1000]
     cases = list(gen_cases(rng, n_draws, ns))
     cases += list(gen_fixed_cases(np.random.default_rng([ck.seed, 12]), 40 if thorough else 6, ns))
+    cases += list(gen_concentrated_cases(np.random.default_rng([ck.seed, 13]), 30 if thorough else 5, ns))
     plain = [c for c in cases if c["start_kind"] != "argmax"]
     special = [c for c in cases if c["start_kind"] == "argmax"]
     if thorough:
